@@ -50,6 +50,12 @@ class Sampler(object):
             o.setdefault("r", []).append(math.sqrt(sum(c * c for c in s)))
             for d in range(len(s)):
                 o.setdefault(f"abs_s{d}", []).append(abs(s[d]))
+        elif self.kind == "allpairs":     # several point masses: every pair separation
+            pts = [lv[0].value.position for lv in leaves]
+            for i in range(len(pts)):
+                for j in range(i + 1, len(pts)):
+                    s = self.mi(pts[i], pts[j])
+                    o.setdefault("r", []).append(math.sqrt(sum(c * c for c in s)))
         elif self.kind == "dipoles":      # like the shipped separation output handler: by identifier distance
             for i in range(len(roots)):
                 for j in range(i + 1, len(roots)):
@@ -158,7 +164,7 @@ def _soft_pair_reference(lengths, beta, k, p, n=None):
     rmax = math.sqrt(sum((L / 2) ** 2 for L in lengths))
     nb = 4000
     hist_r = [0.0] * (nb + 1)
-    hist_c = [[0.0] * (nb + 1) for _ in range(dim)]
+    marg = [[0.0] * n for _ in range(dim)]      # marginal weight per grid cell along each axis
     import itertools
     axes = [[(i + 0.5) * h[d] for i in range(n)] for d in range(dim)]
     sq = [[x * x for x in ax] for ax in axes]
@@ -168,7 +174,7 @@ def _soft_pair_reference(lengths, beta, k, p, n=None):
         w = math.exp(-beta * k / r ** p)
         hist_r[min(nb, int(r / rmax * nb))] += w
         for d in range(dim):
-            hist_c[d][min(nb, int(axes[d][idx[d]] / (lengths[d] / 2) * nb))] += w
+            marg[d][idx[d]] += w
 
     def table(hist, top):
         tot = sum(hist)
@@ -180,7 +186,15 @@ def _soft_pair_reference(lengths, beta, k, p, n=None):
         return TableCDF(xs, c)
     ref = {"r": table(hist_r, rmax)}
     for d in range(dim):
-        ref[f"abs_s{d}"] = table(hist_c[d], lengths[d] / 2)
+        # CDF tabulated at the cell EDGES and interpolated linearly (piecewise-uniform density inside a cell): O(h^2) error;
+        # a histogram of the n midpoints would be a staircase with steps of 1/n ~ 1 %, i.e. of the order of the effect floor
+        tot = sum(marg[d])
+        xs, c, a = [0.0], [0.0], 0.0
+        for i, v in enumerate(marg[d]):
+            a += v
+            xs.append((i + 1) * h[d])
+            c.append(a / tot)
+        ref[f"abs_s{d}"] = TableCDF(xs, c)
     return ref
 
 
@@ -310,6 +324,19 @@ def plan(ctx):
     groups.append({"name": "coulomb_atoms", "kind": "pair", "variants": cv,
                    "refs": {"r": lambda: coulomb_pair_reference(1.0, 2.0)},
                    "shipped_refs": {"r": "2018_JCP_149_064113/coulomb_atoms/ReferenceDataCoulombAtoms.dat"}, "params": {}})
+    # four like charges at stronger coupling: several far targets at once (cell-bounded handlers are deep-copied per target)
+    four = {"HypercubicSetting": {"beta": 6}, "RandomInputHandler": {"number_of_root_nodes": 4}}
+    c4 = {"power_bounded": {"kind": "shipped", "name": "coulomb_atoms/power_bounded", "end": 1e9,
+                            "overrides": dict(four, Coulomb={"number_event_handlers": 3})},
+          "cell_bounded": {"kind": "shipped", "name": "coulomb_atoms/cell_bounded", "end": 1e9,
+                           "overrides": dict(four, CoulombCellBounding={"number_event_handlers": 3},
+                                             CoulombNearby={"number_event_handlers": 3},
+                                             CoulombSurplus={"number_event_handlers": 3})}}
+    if not q:
+        c4["cell_veto"] = {"kind": "shipped", "name": "coulomb_atoms/cell_veto", "end": 1e9,
+                           "overrides": dict(four, CoulombNearby={"number_event_handlers": 3},
+                                             CoulombSurplus={"number_event_handlers": 3})}
+    groups.append({"name": "coulomb_atoms_4", "kind": "allpairs", "variants": c4, "refs": {}, "params": {}})
     # dipoles: shipped reference CDFs + agreement of the variants
     dv = {n: {"kind": "shipped", "name": f"dipoles/{n}", "end": 1e9,
               "overrides": {"FixedIntervalSamplingEventHandler": {"sampling_interval": 0.11}}}
@@ -368,7 +395,9 @@ def analyse(ctx, groups, data, stage):
             F = refs_cache[key]
             shipped = isinstance(builder, tuple)
             for v, pooled in per_variant.items():
-                for xs in pooled.get(obs_name, []):
+                # the chains of one variant are pooled (concatenated; 32 batches over all of them): more power, fewer tests
+                chains_x = pooled.get(obs_name, [])
+                for xs in ([[x for c in chains_x for x in c]] if chains_x else []):
                     st = batch_stats([F(x) for x in xs])
                     if st is None:
                         ctx.count("chains_too_short")
@@ -431,11 +460,11 @@ def main(ctx):
                        "shipped reference CDFs are empirical (unknown sample size): same floors apply"]
     groups = plan(ctx)
     nchain = ctx.pick(2, 6)
-    nsamp, budget = ctx.pick((12000, 40), (100000, 240))
+    nsamp, budget = ctx.pick((40000, 45), (400000, 240))
     jobs = []
     for g in groups:
         for v, spec in g["variants"].items():
-            for s in range(nchain):
+            for s in range(nchain + (1 if len(g["variants"]) > 1 else 0)):
                 jobs.append({"spec": spec, "kind": g["kind"], "seed": ctx.seed * 1000 + s, "max_samples": nsamp,
                              "budget_s": budget, "params": g["params"], "label": f"{g['name']}/{v}", "group": g["name"],
                              "variant": v})
